@@ -1,15 +1,27 @@
 /-
   C11 — answers do not depend on how program variables are named.
 
-  FULL STATEMENT (target, decided on every run by executing each generated program under three
+  FULL STATEMENT (target, decided on every run by executing each generated program under several
   alpha-renamings of its rules and comparing answers, order and output): for any family of
-  per-rule injective name maps the reference machine's run on the renamed knowledge base is the
+  per-rule injective name maps the engine's run on the renamed knowledge base is the
   image of its run on the original one.
-  Proved here (`_partial`): the step on which everything else rests — renaming a clause apart
-  assigns variable ids by first occurrence only, so consistently renamed clauses get the SAME ids,
-  and the engine's term comparison then cannot tell them apart.
+  PROVED HERE
+    * `C11_machine` — for the reference machine of `Spec/PureMachine.lean` (whose runs the engine model's requests are, C01) on
+      the fragment without built-in predicates and function terms (calls with atom functors, `,`, `;`, `not`): if `kb'` is
+      `kb` with the variable names of EACH RULE rewritten by an injective map of its own (`KBRen`; the maps may differ from
+      rule to rule, so rules may reuse each other's names or the query's), then every run of a query on `kb` is a run on
+      `kb'` showing the same observations — answer or none, in the same order, with the same text written — the bindings of
+      the answers being renamed by a map that leaves the query's own variables alone.  Built-in predicates and function terms
+      are left to the differential stream: `print`, `join`, ... write the names of unbound variables.
+    * `unification_blind_to_names` — `unify` on renamed operands under the renamed substitution set gives the renamed
+      result (for a renaming that may depend on the id and is injective for each id).
+    * `rename_apart_commutes` — renaming a rule apart from the counter commutes with a renaming of its names: the ids
+      handed out depend on the order of first occurrence only.
+    * (`_partial`, the first steps) renaming a clause apart assigns variable ids by first occurrence only, and the engine's
+      term comparison cannot tell consistently renamed terms apart.
 -/
 import SuironVerif.Model.Goal
+import SuironVerif.Lemmas.NameBlindKB
 namespace Suiron.C11
 
 mutual
@@ -136,5 +148,83 @@ end
 
 example : (renameTerm (.cplx (.cons (.atom "p") (.cons (.var 0 "$X") (.cons (.var 0 "$Y") .nil)))) ⟨[], 4⟩).2.counter
         = (renameTerm (.cplx (.cons (.atom "p") (.cons (.var 0 "$Foo") (.cons (.var 0 "$Bar") .nil)))) ⟨[], 4⟩).2.counter := by decide
+
+/-! ### the lift to runs -/
+
+open Suiron.Blind Suiron.Spec in
+/-- UNIFICATION IS BLIND TO NAMES (function-free terms with ids at most `n`) -/
+theorem unification_blind_to_names (fo : FloatOps) (ν : NMap) (hinj : Inj ν) (n f : Nat) (a b : Term) (σ : Subst)
+    (ha : good n a = true) (hb : good n b = true) (hs : goodS n σ) :
+    unify fo f (mapN ν a) (mapN ν b) (mapS ν σ) = Blind.Res.map (mapS ν) (unify fo f a b σ) :=
+  (unify_blind fo ν hinj n f a b σ ha hb hs).1
+
+open Suiron.Blind in
+/-- renaming a rule apart commutes with a renaming of its variable names -/
+theorem rename_apart_commutes (ρ : String → String) (hρ : SInj ρ) (r : Rule) (c : Nat) :
+    renameRule (mapRule ρ r) ⟨[], c⟩ = Blind.Res.map (fun x => (mapRule ρ x.1, Blind.mapSt ρ x.2)) (renameRule r ⟨[], c⟩) :=
+  renameRule_comm ρ hρ r ⟨[], c⟩
+
+open Suiron.Blind Suiron.Spec in
+/-- C11 FOR THE REFERENCE MACHINE: consistently renaming the variables of each rule (each rule by an injective map of its
+    own) changes no observation of any run of any query of the fragment — the same answers in the same order with the
+    same output, the bindings renamed by a map `ν` that is the identity on the query's variables (ids up to `c`) -/
+theorem C11_machine (fo : FloatOps) {kb kb' : KB} (hren : KBRen kb kb') (hok : kbOK kb) (q : Goal) (c : Nat)
+    (hq : goodG c q = true) (out : List String) {tr : List (Option Subst × List String)}
+    (h : MRun fo kb ⟨[.goals [q] []], c, out⟩ tr) :
+    ∃ ν, Inj ν ∧ (∀ i, i ≤ c → ν i = idN i) ∧ MRun fo kb' ⟨[.goals [q] []], c, out⟩ (mapTr ν tr) :=
+  machine_blind_to_names fo (kbRel_of_kbRen hren hok) q c hq out h
+
+/-! non-vacuity: `p($X, $Y) :- q($Y, $X).  q(a, b).` and the same program with `$X` and `$Y` exchanged in the first rule and
+    `$X` written for nothing in the second; the query `p($A, $B)` has a run with one answer on the first. -/
+def swapXY (s : String) : String := if s = "$X" then "$Y" else if s = "$Y" then "$X" else s
+theorem swapXY_inj : Blind.SInj swapXY := by
+  intro a b h
+  unfold swapXY at h
+  by_cases a1 : a = "$X" <;> by_cases a2 : a = "$Y" <;> by_cases b1 : b = "$X" <;> by_cases b2 : b = "$Y" <;>
+    simp_all
+def c2 (f : String) (a b : Term) : Term := .cplx (.cons (.atom f) (.cons a (.cons b .nil)))
+def kbA : KB :=
+  [("p/2", [⟨c2 "p" (.var 0 "$X") (.var 0 "$Y"), .call (c2 "q" (.var 0 "$Y") (.var 0 "$X"))⟩]),
+   ("q/2", [⟨c2 "q" (.atom "a") (.atom "b"), .nil⟩])]
+def kbB : KB :=
+  [("p/2", [Blind.mapRule swapXY ⟨c2 "p" (.var 0 "$X") (.var 0 "$Y"), .call (c2 "q" (.var 0 "$Y") (.var 0 "$X"))⟩]),
+   ("q/2", [Blind.mapRule id ⟨c2 "q" (.atom "a") (.atom "b"), .nil⟩])]
+example : kbB = [("p/2", [⟨c2 "p" (.var 0 "$Y") (.var 0 "$X"), .call (c2 "q" (.var 0 "$X") (.var 0 "$Y"))⟩]),
+                 ("q/2", [⟨c2 "q" (.atom "a") (.atom "b"), .nil⟩])] := by decide
+example : Blind.KBRen kbA kbB :=
+  .cons (.cons swapXY swapXY_inj .nil) (.cons (.cons id (fun _ _ h => h) .nil) .nil)
+example : Blind.kbOK kbA := by
+  intro key rs hk r hr
+  simp only [kbA, KB.get] at hk
+  by_cases h1 : "p/2" = key
+  · simp only [h1, if_true, Option.some.injEq] at hk
+    subst hk
+    simp only [List.mem_singleton] at hr
+    subst hr
+    exact ⟨⟨by decide, by decide⟩, by decide⟩
+  · simp only [h1, if_false] at hk
+    by_cases h2 : "q/2" = key
+    · simp only [h2, if_true, Option.some.injEq] at hk
+      subst hk
+      simp only [List.mem_singleton] at hr
+      subst hr
+      exact ⟨⟨by decide, by decide⟩, by decide⟩
+    · simp [h2] at hk
+
+def fo0 : FloatOps := ⟨fun a _ => a, fun a _ => a, fun a _ => a, fun a _ => a, fun _ => 0, fun _ => ""⟩
+open Suiron.Spec in
+/-- the premise of `C11_machine` is met: the query `p($A, $B)` has a run on `kbA` with one answer and then none -/
+example : ∃ σ, MRun fo0 kbA ⟨[.goals [.call (c2 "p" (.var 1 "$A") (.var 2 "$B"))] []], 2, []⟩ [(some σ, []), (none, [])] := by
+  refine ⟨?σ, ?h⟩
+  case h =>
+    refine MRun.ans (S := []) (ctr := ?c) ?steps ?rest
+    case steps =>
+      refine PSteps.step (PStep.call (key := "p/2") (by decide)) ?_
+      refine PSteps.step (PStep.clauseOk (key := "p/2") (f := 20) (by decide) (by rfl) (by rfl)) ?_
+      refine PSteps.step (PStep.call (key := "q/2") (by decide)) ?_
+      refine PSteps.step (PStep.clauseOk (key := "q/2") (f := 20) (by decide) (by rfl) (by rfl)) ?_
+      exact PSteps.refl
+    case rest => exact MRun.fin .refl .nil
+example : Blind.goodG 2 (.call (c2 "p" (.var 1 "$A") (.var 2 "$B"))) = true := by decide
 
 end Suiron.C11
